@@ -738,3 +738,32 @@ func defaultVal(t *Ty) *Val {
 	}
 	panic("bad kind")
 }
+
+// wideContainers: containers with many fields (field trees of depth 6..9, offsets beyond one byte)
+func wideContainers() []*Ty {
+	u8 := &Ty{Kind: "u", N: 1}
+	var out []*Ty
+	for _, k := range []int{33, 70, 300} {
+		fs := make([]*Ty, k)
+		for i := range fs {
+			switch i % 7 {
+			case 0:
+				fs[i] = &Ty{Kind: "u", N: 8}
+			case 1:
+				fs[i] = &Ty{Kind: "list", Elem: u8, N: 5}
+			case 2:
+				fs[i] = &Ty{Kind: "bool"}
+			case 3:
+				fs[i] = &Ty{Kind: "bitlist", N: 9}
+			case 4:
+				fs[i] = &Ty{Kind: "root"}
+			case 5:
+				fs[i] = &Ty{Kind: "vec", Elem: &Ty{Kind: "u", N: 2}, N: 3}
+			default:
+				fs[i] = &Ty{Kind: "u", N: 1}
+			}
+		}
+		out = append(out, &Ty{Kind: "cont", Fields: fs})
+	}
+	return out
+}
